@@ -119,7 +119,8 @@ def tune_explore(shrink_budget_s=8):
   """explore.shrink spends up to 20 s per failing history; with several known findings per run that
   does not fit the quick budget.  Same shrinker, smaller budget (classes are computed from details
   that do not depend on full minimality)."""
-  import functools
+  if common.tier() != "quick":
+    shrink_budget_s = 20
   if not getattr(explore.shrink, "_tuned", False):
     orig = explore.shrink
     def shrink(monitor, seed_name, history, clause, budget_s=shrink_budget_s):
@@ -233,8 +234,8 @@ def main():
                           "actions applied to the ghost TableDataSet, and the four clauses checked "
                           "over every table (metadata included); non-trivial = the bundle emitted "
                           "stored actions or raised")
-  tune_explore()
-  explore.explore(rep, "checks.C02", "C02Monitor", n_quick=128, budget_quick_s=30)
+  tune_explore(4)
+  explore.explore(rep, "checks.C02", "C02Monitor", n_quick=112, budget_quick_s=22)
   return rep.finish()
 
 
